@@ -1,5 +1,6 @@
 """Discharging obligations: solver portfolio z3 (default) -> z3 tactics -> cvc5 (DESIGN 2.6)."""
 import os
+import sys
 import subprocess
 import tempfile
 import time
@@ -65,6 +66,95 @@ def _symbols(e, memo):
     return out
 
 
+def _flatten(hyps):
+    """split top-level conjunctions (an assumed loop invariant is one big And): the quantifier-free conjuncts become usable
+    by the fallbacks that drop or instantiate quantified hypotheses"""
+    out = []
+    stack = list(reversed(list(hyps)))
+    while stack:
+        h = stack.pop()
+        if z3.is_and(h):
+            stack.extend(reversed(h.children()))
+        else:
+            out.append(h)
+    return out
+
+
+def _ite_conditions(e):
+    """conditions of if-then-else terms (outside quantifiers) that compare integer terms"""
+    out, seen = [], set()
+
+    def rec(x):
+        i = x.get_id()
+        if i in seen or z3.is_quantifier(x):
+            return
+        seen.add(i)
+        if z3.is_app(x):
+            if x.decl().kind() == z3.Z3_OP_ITE:
+                c = x.arg(0)
+                if z3.is_app(c) and c.num_args() == 2 and z3.is_int(c.arg(0)) and not any(c.eq(o) for o in out):
+                    out.append(c)
+            for ch in x.children():
+                rec(ch)
+    rec(e)
+    return out
+
+
+def _ground_int_args(fs, limit=14):
+    """ground integer terms that occur as arguments of uninterpreted functions (outside quantifiers) -- the natural
+    instantiation candidates for index-quantified hypotheses"""
+    out, seen_ids, seen = [], set(), set()
+
+    def rec(e):
+        i = e.get_id()
+        if i in seen or z3.is_quantifier(e):
+            return
+        seen.add(i)
+        if z3.is_app(e):
+            if e.decl().kind() == z3.Z3_OP_UNINTERPRETED and e.num_args() > 0:
+                for a in e.children():
+                    if z3.is_int(a) and a.get_id() not in seen_ids:
+                        seen_ids.add(a.get_id())
+                        out.append(a)
+            for c in e.children():
+                rec(c)
+    for f in fs:
+        rec(f)
+    def simple(t, depth=0):
+        # variables, numerals and sums / differences of those: instances at such terms stay linear
+        if z3.is_int_value(t) or (z3.is_const(t) and t.decl().kind() == z3.Z3_OP_UNINTERPRETED):
+            return True
+        if depth < 2 and z3.is_app(t) and t.decl().kind() in (z3.Z3_OP_ADD, z3.Z3_OP_SUB, z3.Z3_OP_UMINUS, z3.Z3_OP_MUL):
+            return all(simple(c, depth + 1) for c in t.children())
+        return False
+    out = [t for t in out if simple(t)]
+    out.sort(key=lambda t: len(t.sexpr()))
+    return out[:limit]
+
+
+def ground_instances(hyps, neg, max_per_hyp=200):
+    """quantifier-free hypotheses + instances of the universally quantified ones at the ground index terms of the
+    quantifier-free part and the goal.  A SUBSET of consequences of the hypotheses: proving from it is sound."""
+    qf = [h for h in hyps if not _has_quant([h])]
+    terms = _ground_int_args(qf + ([neg] if not _has_quant([neg]) else []))
+    extra = []
+    if not terms:
+        return qf
+    import itertools
+    for h in hyps:
+        if not (z3.is_quantifier(h) and h.is_forall()):
+            continue
+        nv = h.num_vars()
+        if any(h.var_sort(j) != z3.IntSort() for j in range(nv)):
+            continue
+        ts = terms if len(terms) ** nv <= max_per_hyp else terms[: max(2, int(max_per_hyp ** (1.0 / nv)))]
+        for combo in itertools.product(ts, repeat=nv):
+            inst = z3.substitute_vars(h.body(), *reversed(combo))
+            if not _has_quant([inst]):
+                extra.append(inst)
+    return qf + extra
+
+
 def cone_of_influence(hyps, goal, rounds):
     memo = {}
     rel = set(_symbols(goal, memo))
@@ -91,6 +181,7 @@ def check(hyps, goal, inputs=None, timeout_ms=8000, use_cvc5=True, second_opinio
     if z3.is_true(z3.simplify(goal)):
         return "proved", "simplifier", time.time() - t0, None, ""
     neg = z3.Not(goal)
+    hyps = _flatten(hyps)
     # fast path: prove from the hypotheses in the cone of influence of the goal (a subset: sound for `proved`)
     if len(hyps) > 12:
         for rounds in (1, 2):
@@ -146,6 +237,59 @@ def check(hyps, goal, inputs=None, timeout_ms=8000, use_cvc5=True, second_opinio
                 return "proved", "z3-" + tac, time.time() - t0, None, ""
             if r == z3.sat:
                 return "refuted", "z3-" + tac, time.time() - t0, model_to_dict(ts.model(), inputs or {}), ""
+    neg_orig = neg
+    if quant and z3.is_quantifier(goal) and goal.is_forall() and not _has_quant([goal.body()]):
+        # a universally quantified goal: refute its negation at fresh (skolem) constants
+        sks = [z3.FreshConst(goal.var_sort(j), "sk") for j in range(goal.num_vars())]
+        neg = z3.Not(z3.substitute_vars(goal.body(), *reversed(sks)))
+    if quant and not _has_quant([neg]):
+        # quantifier instantiation by hand: instances of the quantified hypotheses at the ground index terms of the goal,
+        # with a case split on the conditions of if-then-else terms of the goal (new element / old elements of an updated
+        # sequence); every case must be refuted, each from some subset of the instantiated hypotheses
+        try:
+            import itertools
+            qf = [h for h in hyps if not _has_quant([h])]
+            qs = [h for h in hyps if _has_quant([h])][:8]
+            conds = _ite_conditions(neg)[:2]
+            cases = [[]]
+            for c in conds:
+                cases = [cs + [c] for cs in cases] + [cs + [z3.Not(c)] for cs in cases]
+            subsets = [[q] for q in qs] + [list(p_) for p_ in itertools.combinations(qs, 2)] + ([qs] if len(qs) > 2 else [])
+            insts = {}
+            deadline = time.time() + 5.0 * timeout_ms / 1000.0
+            ok = True
+            used = []
+            for case in cases:
+                done = False
+                for sel in subsets:
+                    if time.time() > deadline:
+                        break
+                    key = tuple(id(q) for q in sel)
+                    if key not in insts:
+                        insts[key] = ground_instances(qf + sel, neg)
+                    ts = z3.Solver()
+                    ts.set("timeout", timeout_ms)
+                    for h in insts[key]:
+                        ts.add(h)
+                    for c in case:
+                        ts.add(c)
+                    ts.add(neg)
+                    rr = ts.check()
+                    if os.environ.get("PYVC_TRACE"):
+                        print("ground-instances", len(case), len(sel), len(insts[key]), rr, round(time.time() - t0, 1), file=sys.stderr)
+                    if rr == z3.unsat:
+                        done = True
+                        used.append(len(sel))
+                        break
+                if not done:
+                    ok = False
+                    break
+            if ok:
+                return "proved", f"z3(ground instances of the quantified hypotheses, {len(cases)} case(s))", time.time() - t0, None, ""
+        except z3.Z3Exception as e:
+            if os.environ.get("PYVC_TRACE"):
+                print("ground-instances error", e, file=sys.stderr)
+    neg = neg_orig
     if quant:
         # proving from FEWER hypotheses is sound: drop the quantified ones and use the nonlinear tactics
         qf = [h for h in hyps if not _has_quant([h])]
@@ -167,6 +311,10 @@ def check(hyps, goal, inputs=None, timeout_ms=8000, use_cvc5=True, second_opinio
             return "proved", "cvc5", time.time() - t0, None, ""
         if r2 == "sat":
             return "refuted", "cvc5", time.time() - t0, None, "cvc5 sat (no model extracted)"
+    dump = os.environ.get("PYVC_DUMP")
+    if dump:
+        os.makedirs(dump, exist_ok=True)
+        open(os.path.join(dump, f"unknown_{os.getpid()}_{int(time.time() * 1000) % 10 ** 8}.smt2"), "w").write(s.sexpr() + "\n(check-sat)\n")
     return "unknown", "portfolio", time.time() - t0, None, reason
 
 
